@@ -170,7 +170,8 @@ g_union_info_get_discriminator_type (GIUnionInfo *info)
 {
   GIRealInfo *rinfo = (GIRealInfo *)info;
 
-  return _g_type_info_new ((GIBaseInfo*)info, rinfo->typelib, rinfo->offset + 24);
+  return _g_type_info_new ((GIBaseInfo*)info, rinfo->typelib,
+                           rinfo->offset + G_STRUCT_OFFSET (UnionBlob, discriminator_type));
 }
 
 /**
